@@ -709,6 +709,9 @@ func run(c *core.Ctx) {
 	}
 	each(alpha, 1, true)
 	each(alpha, 2, true)
+	// kinds of value no plan builder has a branch of its own for (maps with integer keys, maps of
+	// strings with an empty one): one-field types
+	each(gens.FieldAlphabet(gens.ExtraKinds()), 1, true)
 	if !c.Quick() {
 		var thin []gens.FieldSpec
 		for _, k := range gens.ThinKinds() {
